@@ -29,6 +29,12 @@ func (s *simTransport) RoundTrip(req *http.Request) (*http.Response, error) {
 	resp := rec.Result()
 	resp.Request = req
 	simlog.Add(simlog.Event{Kind: "http", A: req.Method + " " + req.URL.RequestURI(), N: resp.StatusCode})
+	// like a real transport: a request whose context has ended meanwhile (a deadline or a
+	// time-out the client put on it) fails, whatever the server did with it
+	if err := req.Context().Err(); err != nil {
+		simlog.Add(simlog.Event{Kind: "http.cancelled", A: req.Method + " " + req.URL.RequestURI(), B: err.Error()})
+		return nil, err
+	}
 	return resp, nil
 }
 
